@@ -13,7 +13,7 @@ theorem extract_pointL (q i : String) (j : Nat) (hq1 : '#' ∉ q.toList) (hq2 : 
   unfold Point.extract pointL Point.encodeList
   rw [String.toList_ofList]
   simp only [Option.map_some]
-  rw [C01_point_roundtrip_list q.toList i.toList j hq1 hq2 hi]
+  rw [C01_point_roundtrip_list q.toList i.toList j hq1 hq2]
   simp [String.ofList_toList]
 
 theorem idxOf_hash (pre suf : List Char) (h : '#' ∉ pre) : (pre ++ '#' :: suf).idxOf? '#' = some pre.length := by
